@@ -56,7 +56,7 @@ PARTIAL = [
 C01_RUNNER = r'''
 import sys, json, types, numpy as np, warnings
 warnings.simplefilter('ignore'); np.seterr(all='ignore')
-job = json.load(open(sys.argv[1]))
+jobs = json.load(open(sys.argv[1]))
 from optiland.optic import Optic
 from optiland.surfaces.standard_surface import Surface
 from optiland.surfaces.surface_factory import SurfaceFactory
@@ -88,10 +88,13 @@ def optic_with(zs, xs=None, ys=None, rxs=None, rys=None):
     return o
 def col(xs):
     return np.array([[x] for x in xs], dtype=float)
-name = job['kernel']
-inputs = [i['path'] for i in job['manifest']['inputs']]
-out = []
-for case in job['cases']:
+allout = {}
+for job in jobs:
+  name = job['kernel']
+  inputs = [i['path'] for i in job['manifest']['inputs']]
+  out = []
+  allout[name] = out
+  for case in job['cases']:
     a = dict(zip(inputs, case))
     try:
         if name == 'c01_cfg_cs':
@@ -171,12 +174,11 @@ for case in job['cases']:
         out.append({'ok': res})
     except Exception as e:
         out.append({'err': type(e).__name__, 'msg': str(e)[:100]})
-json.dump(out, open(sys.argv[2], 'w'))
+json.dump(allout, open(sys.argv[2], 'w'))
 '''
 
 
-def _pyres(man, cases):
-    import vlib
+def _enc(man, cases):
     enc = []
     for c in cases:
         ec = []
@@ -188,7 +190,7 @@ def _pyres(man, cases):
             else:
                 ec.append(v)
         enc.append(ec)
-    return vlib.run_python(C01_RUNNER, {'kernel': man['name'], 'manifest': man, 'cases': enc})
+    return enc
 
 
 def _order(man, d):
@@ -206,7 +208,7 @@ def kernel_cases(ctx):
         if name not in M:
             return None
         cases = [_order(M[name], d) for d in dicts]
-        opts = {'pyres': _pyres(M[name], cases)}
+        opts = {}
         if tol is not None:
             opts['tol'] = tol
         return name, cases, opts
@@ -294,9 +296,14 @@ def kernel_cases(ctx):
                        f'self._surfaces.surfaces[].geometry.cs.{f1}': [g.uni(-1, 1) for _ in range(m)],
                        f'self._surfaces.surfaces[].geometry.cs.{f2}': [g.uni(-1, 1) for _ in range(m)]})
         out.append(emit(f'c01_{kind}_update', ds))
-    for e in out:
-        if e is not None:
-            yield e
+    out = [e for e in out if e is not None]
+    import vlib
+    # one Python process runs the real methods for all kernels
+    allres = vlib.run_python(C01_RUNNER, [{'kernel': nm, 'manifest': M[nm], 'cases': _enc(M[nm], cases)}
+                                          for nm, cases, _ in out])
+    for nm, cases, opts in out:
+        opts['pyres'] = allres[nm]
+        yield nm, cases, opts
 
 
 # --------------------------------------------------------------------------
